@@ -286,16 +286,26 @@ def site_index_offset(ctx, rep, clause):
     from ..poly import PathEval, fmt
     program = ctx.program
     f = program.func('peptacular.util:get_regex_match_indices')
-    loops = [x for x in walk_own(f.node) if isinstance(x, ast.For) and 'finditer(' in norm_stmt(x.iter)]
-    if len(loops) != 1:
-        raise AnalysisError('get_regex_match_indices: the loop over the matches was not found')
-    fn = ast.FunctionDef(name='_body', args=f.node.args, body=list(loops[0].body), decorator_list=[], returns=None,
-                         type_comment=None)
-    ast.fix_missing_locations(fn)
-    paths = PathEval(fn, {}).run()
+    import re as _re
+    cz = Canon(f.node)
+    paths = PathEval(f.node, {}).run()
     if not paths:
         raise AnalysisError('get_regex_match_indices: no yielded value found')
+    seen = set()
     for cond, p in paths:
+        # locals that stand for match.start() / match.end() are read through; conditions that do not concern a match
+        # (how the pattern was given) are not part of the decision
+        def thru(t):
+            try:
+                return norm_stmt(cz.resolve(ast.parse(t, mode='eval').body))
+            except SyntaxError:
+                return t
+        cond = tuple((thru(t), v) for t, v in cond)
+        cond = tuple((t, v) for t, v in cond if '.start()' in t or '.end()' in t or ' is None' in t)
+        key = (cond, fmt(p))
+        if key in seen:
+            continue
+        seen.add(key)
         coeff = p.get((('offset', 1),), 0)
         consts = p.get((), 0)
         others = [m for m in p if m not in ((('offset', 1),), ())]
@@ -303,8 +313,19 @@ def site_index_offset(ctx, rep, clause):
         ctext = ' and '.join(f'{"" if v else "not "}({t})' for t, v in cond) or 'always'
         ob(rep, 'SIB-site', f.fq, f'the index yielded under [{_anon_names(ctext)}] is <match start> + offset (+1)', ok,
            fmt(p), f'on the path [{ctext}] the yielded index is {fmt(p)}: `offset` is not applied (exactly once) there, so '
-           f'the builders (offset=-1) place modifications for such targets one residue off', f.loc(loops[0]), clause)
-    rep.floor('SIB-site', 'yield paths of get_regex_match_indices', len(paths), 2)
+           f'the builders (offset=-1) place modifications for such targets one residue off', f.loc(), clause)
+        # the +1 of a consuming match is decided on the match whose index is yielded, not on another one
+        who = _re.match(r'(\w+)\.start\(\)', str(others[0][0][0])) if others else None
+        tested = {m_.group(1) for t, _v in cond for m_ in [_re.match(r'(\w+)\.start\(\) != \1\.end\(\)', t)] if m_} | \
+            {m_.group(1) for t, _v in cond for m_ in [_re.match(r'(\w+)\.end\(\) != \1\.start\(\)', t)] if m_}
+        if who is not None:
+            same = tested <= {who.group(1)} and bool(tested)
+            ob(rep, 'SIB-site', f.fq, f'the shift of the index yielded under [{_anon_names(ctext)}] is decided on the match '
+               f'it belongs to', same, 'zero-width or consuming is a property of each match',
+               f'the index of `{who.group(1)}` is shifted according to a test of {sorted(tested) or "no match at all"}: a '
+               f'pattern whose alternatives are partly zero-width and partly consuming (`([KR])|(?=D)`) gets the shift of '
+               f'one kind applied to the matches of the other', f.loc(), clause)
+    rep.floor('SIB-site', 'yield paths of get_regex_match_indices', len(seen), 2)
 
 
 def _anon_names(t: str) -> str:
